@@ -309,10 +309,21 @@ func runGrid(R *vlib.Out, prop string) {
 		}
 	}
 	if *vlib.ReplayPath != "" {
+		var probe struct {
+			Scenario string `json:"scenario"`
+		}
+		vlib.LoadReplay(&probe)
+		if probe.Scenario == "c09s" {
+			replaySched(R, c09SchedScenario)
+			return
+		}
 		var c gridCase
 		vlib.LoadReplay(&c)
 		one(c)
 		return
+	}
+	if prop == "C09" {
+		defer runC09Sched(R)
 	}
 	Ns := map[string]map[string][]int{
 		"C08": {"quick": {1, 10, 60}, "thorough": {1, 2, 10, 30, 60}},
@@ -405,4 +416,95 @@ func kinds(a []gact) string {
 		s += fmt.Sprint(x.Kind)
 	}
 	return s
+}
+
+// ---- C09, schedule part: the peer answers the session's TestRequest the instant it is on the wire ----
+// (the answer is dispatched concurrently with the timer task that sent the probe; all interleavings
+// within the preemption bound; the window-rule oracle judges the resulting timeline)
+
+func c09SchedScenario(name string, p map[string]any) *schedScenario {
+	role, answer := pstr(p, "role"), pstr(p, "answer")
+	N := pint(p, "n")
+	var o gridObs
+	var c gridCase
+	sc := &schedScenario{Name: "c09s", Params: p, Strict: true, Delay: true}
+	sc.Body = func() {
+		var w *world
+		vsched.Deterministic(func() {
+			w = newWorld(wcfg{Role: role, Buf: 10, HbMin: 1, HbMax: 100, HbInt: N})
+		})
+		o = gridObs{discAt: -1, stoppedAt: -1}
+		o.logonAt = vsched.NowOffset()
+		vsched.Deterministic(func() { w.logonOK(N) })
+		answered := 0
+		w.onOut = func(m []byte) {
+			if mtype(m) == "1" && answered == 0 {
+				answered++
+				o.inAt = append(o.inAt, vsched.NowOffset())
+				if answer == "heartbeat" {
+					id, _ := get(m, "112")
+					w.h.ServeIncoming(w.msg("0", "112="+id))
+				} else {
+					w.h.ServeIncoming(w.msg("D", "11=x"))
+				}
+			}
+		}
+		go func() {
+			<-w.h.Context().Done()
+			o.stoppedAt = vsched.NowOffset()
+		}()
+		T := time.Duration(N+tol(N)) * time.Second
+		c = gridCase{Role: role, N: N, Horizon: int64((3*T + T/2) / time.Millisecond)}
+		time.Sleep(3*T + T/2)
+		vsched.Settle()
+		o.outs = append([]outMsg{}, w.outs...)
+		if w.ctxDone {
+			o.discAt = w.ctxDoneAt
+		}
+		o.discEv, o.stopped = w.discEv, w.stopped
+		o.end = vsched.NowOffset()
+	}
+	sc.Check = func(r *vsched.Result) (string, string) {
+		s, d := c09Oracle(c, o)
+		if s != "" {
+			return "answered-probe:" + s, d
+		}
+		return "", ""
+	}
+	sc.Outcome = func() string {
+		ntr := 0
+		for _, m := range o.outs {
+			if mtype(m.Msg) == "1" {
+				ntr++
+			}
+		}
+		return fmt.Sprintf("tr=%d disc=%v", ntr, o.discAt >= 0)
+	}
+	return sc
+}
+
+func runC09Sched(R *vlib.Out) {
+	bound := 1
+	if *vlib.Tier == "thorough" {
+		bound = 2
+	}
+	var ps []map[string]any
+	for _, role := range []string{"acc", "ini"} {
+		for _, ans := range []string{"heartbeat", "other"} {
+			ps = append(ps, map[string]any{"role": role, "answer": ans, "n": 1})
+		}
+	}
+	saved := vsched.TrackStates
+	vsched.TrackStates = true
+	for i, p := range ps {
+		if vlib.Expired() {
+			R.Cap("deadline")
+			break
+		}
+		scenarioBudget = 4 * vlib.Remaining() / time.Duration(len(ps)-i)
+		sc := c09SchedScenario("c09s", p)
+		sc.Bound = bound
+		exploreSched(R, sc)
+	}
+	vsched.TrackStates = saved
 }
